@@ -55,7 +55,12 @@ CHECKS["C13"] = dict(level="other", design="DESIGN 5/C13", engine="E1",
    text="The real patch context managers run on stub targets; which target/attribute/kind each spec names, WHICH make_value / getattr / patch factory raises and whether the body raises are solver variables; the post-condition is that every attribute resolves to its pre-state object (or is absent again) and the ref-count table is empty, for nesting depth 1-2. Counterexamples are replayed concretely. The x64 context managers are executed on all (previous, requested, raises) combinations.",
    note="Partial claim: patch-stack and x64 kernels only (<=3 specs, 2 targets, 3 attributes). That the ~510 live binding specs and JAX's jit caches leave eager behaviour unchanged is a whole-process property outside this technique.")
 
-for _k in ("C13", "C17", "C18", "C19"):
+CHECKS["C05"] = dict(level="other", design="DESIGN 5/C05", engine="E1",
+   technique="z3 strings/regular expressions: inclusion of the positional-input name language (from the live compiled regex) in the always-keep predicate (translated from the live AST); declared interface vs jax.eval_shape as enumerated side conditions",
+   text="The compiled _POSITIONAL_INPUT_NAME_RE is parsed with re._parser into a z3 regex and the nested closure _should_always_keep is translated from its live AST into a z3 string predicate; z3 decides, over all printable-ASCII strings up to length 12, that every positional name is always kept and that the binder's names in_<i> / in_<i>_nchw are positional names; witnesses are replayed through to_onnx with an unused argument. Input/output count and order, rank, static dims, element-type class, user symbols and requested names are compared with jax.eval_shape on ~150 exported programs incl. unused inputs, outputs that are inputs, duplicated outputs, pytrees, names, layout flags.",
+   note="Partial: the custom-naming functions could not be executed by CrossHair (its isinstance interception fails inside onnx_ir Protocols), so requested names are covered only by enumerated programs; part 3 is direct evaluation, not a solver query. AST translator subset is stated; unsupported source is a harness error.")
+
+for _k in ("C05", "C13", "C17", "C18", "C19"):
     CHECKS[_k]["engine"] = "E1"
 
 NOT_APPLICABLE = {
